@@ -8,6 +8,7 @@ import IvpModel.Driver.BdfDrv
 import IvpModel.Driver.ContDrv
 import IvpModel.Driver.BdfNumDrv
 import IvpModel.Driver.RadauNumDrv
+import IvpModel.Driver.FdJacDrv
 
 def main (args : List String) : IO UInt32 := do
   let stdin ← IO.getStdin
@@ -23,6 +24,9 @@ def main (args : List String) : IO UInt32 := do
       return 0
   | ["lu"] =>
       for o in Drv.Lu.run lines do IO.println o
+      return 0
+  | ["fdjac"] =>
+      for o in Drv.FdJ.run lines do IO.println o
       return 0
   | ["radaunum"] =>
       for o in Drv.RadauN.run lines do IO.println o
